@@ -11,7 +11,7 @@ def run(tier, seed, prop=PROP):
     rep = vlib.Report(prop, tier, seed, "model_checking")
     binary = mx.build_driver()
     # ---- E1: TLC on the specification
-    runs = [vlib.tlc_expect_ok("MCMux", "mux_C_timed.cfg"), vlib.tlc_expect_ok("MCMux", "mux_A_safety.cfg")]
+    runs = [vlib.tlc_expect_ok("MCMux", "mux_C_timed.cfg"), vlib.tlc_expect_ok("MCMux", "mux_E_timed.cfg"), vlib.tlc_expect_ok("MCMux", "mux_E_safety.cfg"), vlib.tlc_expect_ok("MCMux", "mux_A_safety.cfg")]
     if tier == "thorough":
         runs += [vlib.tlc_expect_ok("MCMux", "mux_B_safety.cfg"),
                  vlib.tlc_expect_ok("MCMux", "mux_A_timed.cfg", timeout=3000),
